@@ -23,6 +23,10 @@ func fmtName(file bool) string {
 }
 
 // one generated document, every destination
+// skipTarget: a target left out of the current batch of cases (the model's RawMessage capture `tee` is
+// quadratic in the number of reads, so the 65537-element sequences leave "raw" to the predicate-free run)
+var skipTarget string
+
 func decodeTree(o *hx.Out, cat string, t *c01x.Tree, file bool, name, trail []byte) {
 	r := o.R
 	data := append(t.Doc(file, name), trail...)
@@ -43,6 +47,9 @@ func decodeTree(o *hx.Out, cat string, t *c01x.Tree, file bool, name, trail []by
 		targets = append(targets, "ty:"+c01x.MisfitType(r))
 	}
 	for _, target := range targets {
+		if skipTarget != "" && target == skipTarget {
+			continue
+		}
 		idx++
 		mode := r.Intn(4)
 		res := c01x.RunTarget(file, target, data, mode)
@@ -188,6 +195,28 @@ func main() {
 		s := &c01x.Tree{Kind: c01x.String, Bytes: r.Bytes(32767 - rep)}
 		decodeTree(o, "decode.big", s, rep%2 == 0, []byte("s"), r.Bytes(r.Intn(4)))
 	}
+	// sequences longer than the decoder's first allocation step (65536 elements): the slice is grown in
+	// steps while the elements arrive, the result must still have exactly the declared elements
+	for rep, n := range []int{65537, 70000, 65536, 131073, 65535, 131071} {
+		if rep >= o.N(2, 3) {
+			break
+		}
+		l := &c01x.Tree{Kind: c01x.List, Eid: c01x.Short}
+		ia := &c01x.Tree{Kind: c01x.IntArray}
+		la := &c01x.Tree{Kind: c01x.LongArray}
+		ba := &c01x.Tree{Kind: c01x.ByteArray, Bytes: r.Bytes(n)}
+		for i := 0; i < n; i++ {
+			v := int64(int16(r.Next()))
+			l.List = append(l.List, &c01x.Tree{Kind: c01x.Short, I: v})
+			ia.Ints = append(ia.Ints, int64(int32(r.Next())))
+			la.Ints = append(la.Ints, int64(r.Next()))
+		}
+		skipTarget = "raw"
+		for _, t := range []*c01x.Tree{l, ia, la, ba} {
+			decodeTree(o, "decode.long-sequence", t, rep%2 == 0, []byte("q"), r.Bytes(r.Intn(3)))
+		}
+		skipTarget = ""
+	}
 	// empty lists with every element id, nested empties
 	for eid := byte(0); eid <= 12; eid++ {
 		t := &c01x.Tree{Kind: c01x.List, Eid: eid}
@@ -235,6 +264,19 @@ func main() {
 		encodeValue(o, "encode.long", &c01x.GV{K: '[', Ty: "str", L: []*c01x.GV{{K: 's', S: r.Bytes(l)}}}, false, nil)
 	}
 	encodeValue(o, "encode.nil", &c01x.GV{K: 'n'}, true, nil)
+	// []any of integers of MIXED widths: the array tag is chosen from the first element; a later wider
+	// element must be refused or survive - never be truncated
+	iv := func(ty string, v int64) *c01x.GV { return &c01x.GV{K: 'i', Ty: ty, I: v} }
+	mixes := [][]*c01x.GV{
+		{iv("i32", 1), iv("i64", 1<<40)}, {iv("i32", 1), iv("i64", 7)}, {iv("i64", 1 << 40), iv("i32", 1)},
+		{iv("i8", 1), iv("i16", 300)}, {iv("i8", 1), iv("i32", 1 << 20)}, {iv("i32", -1), iv("i32", 2), iv("i64", -(1 << 35))},
+		{iv("i16", 5), iv("i8", 1)}, {iv("i32", 1), {K: 'n'}}, {iv("i64", 1), {K: 's', S: []byte("x")}},
+		{iv("int", 1 << 40), iv("i32", 3)}, {iv("i32", 3), iv("int", 1<<40)},
+	}
+	for i, mx := range mixes {
+		encodeValue(o, "encode.mixed-widths", &c01x.GV{K: '[', Ty: "any", L: mx}, i%2 == 0, []byte("m"))
+		encodeValue(o, "encode.mixed-widths", &c01x.GV{K: '{', Keys: [][]byte{[]byte("k")}, L: []*c01x.GV{{K: '[', Ty: "any", L: mx}}}, i%2 == 1, nil)
+	}
 	for _, ty := range []string{"bool", "i8", "u8", "i16", "u16", "i32", "u32", "i64", "u64", "int", "uint", "f32", "f64", "str", "map", "any", "sl:u8", "sl:any", "sl:sl:i32"} {
 		for rep := 0; rep < o.N(6, 5); rep++ {
 			encodeValue(o, "encode.type", c01x.GenOfType(r, ty, 2), rep%2 == 0, c01x.GenKey(r))
